@@ -13,14 +13,15 @@ def rel(name, archqual=None, version=None, archs=None, profiles=()):
 
 
 def rel_tokens(r, style="tight", sym=False):
-    sp = [] if style == "tight" else [ws("  " if style == "loose" else " ")]
-    sp1 = [ws()]                       # mandatory single space in canonical positions
+    sp = [ws("  ")] if style == "loose" else []                    # optional extra blanks inside brackets
+    opsp = [] if style == "tight" else [ws("  " if style == "loose" else " ")]   # between operator and version
+    sp1 = [ws()]                       # single space in canonical positions
     out = [ident(r["name"], sym)]
     if r["archqual"]:
         out += [rt("COLON"), ident(r["archqual"], sym)]
     if r["version"]:
         op, v = r["version"]
-        out += (sp1 if style != "tight" else []) + [rt("L_PARENS")] + sp + [rt(k) for k in OPS[op]] + sp
+        out += (sp1 if style != "tight" else []) + [rt("L_PARENS")] + sp + [rt(k) for k in OPS[op]] + opsp
         parts = v.split(":")
         for i, p in enumerate(parts):
             if i:
